@@ -173,11 +173,11 @@ deriving Repr, DecidableEq
 
 def toI64 (n : Nat) : Int := if n < 2^63 then (n : Int) else (n : Int) - 2^64
 
-/-- `(pts as i64 - dts as i64) as i32` (none = the i64 subtraction overflows → panic with overflow checks) -/
+/-- `(i128::from(pts) - i128::from(dts)) as i32`: the difference taken without overflow, then
+    truncated to 32 bits. (Always `some`; the `Option` remains from the earlier i64 form, whose
+    subtraction could overflow.) -/
 def ctsOf (pts dts : Nat) : Option Int :=
-  let z := toI64 (pts % 2^64) - toI64 (dts % 2^64)
-  if z < -(2^63 : Int) ∨ z ≥ (2^63 : Int) then none else
-  some (toI32 ((z % (2^32 : Int)).toNat))
+  some (toI32 ((((pts : Int) - (dts : Int)) % (2^32 : Int)).toNat))
 
 def durationsOf (samples : List Sample) (fallback : Option Nat) : List Nat :=
   let n := samples.length
